@@ -8,7 +8,8 @@
    (resolved = under the names most recently announced, announced_only = only where announced). *)
 From Coq Require Import List NArith Bool.
 From Mdns Require Import Bytes Rec ParamsRegistry Names WireOut Registry RegistryDaemon RegistrySpec
-     RegistryParamsPinned RegistryProofs RegistryDaemonProofs RegistryWitnesses RegistryWitnessProofs.
+     RegistryParamsPinned RegistryProofs RegistryDaemonProofs RegistryLiftProofs RegistryHistoryProofs RegistryWitnesses
+     RegistryWitnessProofs.
 Import ListNotations.
 Open Scope N_scope.
 
@@ -110,6 +111,84 @@ Theorem C09_former_witnesses_accepted :
   self9 w_resend_if_ifs w_resend_if_its = [].
 Proof. exact w_former_c09_accepted. Qed.
 
+(* ---- round 4: over ALL histories of the daemon model ----------------------------------------------------
+   run_state st its = the state after the iterations its; any interface table and OS table, any
+   datagrams (queries and responses), any calls (register, unregister, monitor, shutdown,
+   enable/disable_interface), any jitter values, any iteration times. *)
+
+(* INVARIANT: whatever is queued as the repeat of a goodbye IS a goodbye - a response with a
+   non-empty answer section in which every record has TTL 0 - in every reachable state. *)
+Theorem C09_saved_repeats_are_goodbyes_all_histories : forall ifs os its,
+  saved_goodbyes (run_state (d_init_os ifs os) its).
+Proof. exact saved_goodbyes_all_histories. Qed.
+
+(* ON EVERY interface/family the service is announced on: the goodbye goes out at the unregister and
+   the same message is queued for now + 120 (every state). *)
+Theorem C09_goodbye_everywhere_announced : forall st k ch now s itf v4,
+  aget k (d_svcs st) = Some s -> In itf (d_intfs st) -> announced_on (if_index itf) s = true ->
+  addrs_on_intf s itf v4 <> [] ->
+  let m := goodbye_msg (get_reg st (if_index itf)) s (addrs_on_intf s itf v4) in
+  In (OSend (if_index itf) v4 Mcast m) (snd (unregister st k ch now)) /\
+  In (now + 120, UnregisterResend m (if_index itf) v4) (d_retrans (fst (unregister st k ch now))).
+Proof. exact goodbye_everywhere_announced. Qed.
+
+(* ONE REPEAT: when the queued entry is due it is sent unchanged (if the interface still has that
+   family) and leaves the queue; and no iteration leaves a due entry behind
+   (C07_no_overdue_queue_entry = iterate_queue_future), so it is run in the first iteration at or
+   after now + 120. *)
+Theorem C09_repeat_run_once : forall st now js t m i v4,
+  In (t, UnregisterResend m i v4) (d_retrans st) -> t <= now ->
+  incl (unregister_resend st m i v4) (snd (fst (retransmit st now js))) /\
+  ~ In (t, UnregisterResend m i v4) (d_retrans (fst (fst (retransmit st now js)))).
+Proof. exact repeat_run_once. Qed.
+
+Theorem C09_no_overdue_repeat : forall st it st' os js,
+  iterate st it = (st', os, Running, js) -> Forall (fun e => it_now it < fst e) (d_retrans st').
+Proof. exact iterate_queue_future. Qed.
+
+(* what an iteration can add to the queue: RegisterResend entries for now + 1000 and goodbye repeats
+   for now + 120, nothing else; everything else was there before *)
+Theorem C09_queue_growth : forall st it,
+  Forall (fun e => In e (d_retrans st) \/ new_entry (it_now it) e) (d_retrans (fst (fst (fst (iterate st it))))).
+Proof. exact iterate_retrans. Qed.
+
+(* non-vacuity on the unregister witness: repeat of the announcement queued for +1895, goodbye repeat
+   queued for +2620 and gone afterwards, no service left *)
+Example C09_queue_example :
+  queue_times (state_after w_unregister_ifs w_unregister_its 5) = [1001895] /\
+  queue_times (state_after w_unregister_ifs w_unregister_its 7) = [1002620] /\
+  has_goodbye_repeat (state_after w_unregister_ifs w_unregister_its 7) = true /\
+  queue_times (state_after w_unregister_ifs w_unregister_its 8) = [] /\
+  d_svcs (state_after w_unregister_ifs w_unregister_its 8) = [].
+Proof. exact w_unregister_queue. Qed.
+
+(* "After the repeat nothing of the service remains in the registry (active, probing)" is FALSE:
+   unregister removes the service from the service map and queues the repeat, the registries are
+   untouched (C09_unregister_frame).  Witness, reproduced on the real daemon: unregister (OK) after
+   the second probe - the third probe query still goes out with the records of the unregistered
+   service, both names become active with no service registered, and a re-registration 2.6 s later
+   is announced at once without probing.  chk_C09 and chk_C07 accept the run (a probe query is not a
+   response; the names were probed three times). *)
+Theorem C09_registry_forgets_unregistered_service_refuted :
+  d_svcs (state_after w_unreg_probing_ifs w_unreg_probing_its 4) = [] /\
+  map (fun kr => (length (rg_probing (snd kr)), length (rg_active (snd kr)))) (d_regs (state_after w_unreg_probing_ifs w_unreg_probing_its 4)) = [(2, 0)]%nat /\
+  d_svcs (state_after w_unreg_probing_ifs w_unreg_probing_its 6) = [] /\
+  queue_times (state_after w_unreg_probing_ifs w_unreg_probing_its 6) = [] /\
+  map (fun kr => (length (rg_probing (snd kr)), length (rg_active (snd kr)))) (d_regs (state_after w_unreg_probing_ifs w_unreg_probing_its 6)) = [(0, 2)]%nat /\
+  busy (timeline w_unreg_probing_ifs w_unreg_probing_its) =
+  [ (1000145, true, false, false); (1000395, true, false, false); (1000645, true, false, false);
+    (1003000, false, true, false); (1004000, false, true, false) ] /\
+  self9 w_unreg_probing_ifs w_unreg_probing_its = [] /\ self7 w_unreg_probing_ifs w_unreg_probing_its = [].
+Proof. exact w_unreg_probing_refutes. Qed.
+
+(* NOT proved over histories (partial): "no live response after the unregister carries a record of
+   that service".  Proved per step for every state: no answer without an announced service
+   (C09_no_answer_without_announced_service), a pending second announcement of an absent service
+   does nothing (C09_no_reannouncement), a direct answer is built from a registered service whose
+   current name is asked for (C08_direct_answer_current_name); the queue holds nothing of the
+   service but the goodbye repeat (C09_saved_repeats_are_goodbyes_all_histories, C09_queue_growth).
+   The clause is executed as chk_C09 code 3 on every generated history and on the model's own run. *)
+
 (* History level, full statement (validated on every generated history by running chk_C09 on the
    model's own observation, NOT proved as a theorem):
      forall ifs its, no VFail in chk_C09 (d_init ifs) its (model_obs (d_init ifs) its)
@@ -142,4 +221,11 @@ Print Assumptions C09_shutdown_goodbyes_once.
 Print Assumptions C09_no_reannouncement.
 Print Assumptions C09_no_answer_without_announced_service.
 Print Assumptions C09_former_witnesses_accepted.
+Print Assumptions C09_saved_repeats_are_goodbyes_all_histories.
+Print Assumptions C09_goodbye_everywhere_announced.
+Print Assumptions C09_repeat_run_once.
+Print Assumptions C09_no_overdue_repeat.
+Print Assumptions C09_queue_growth.
+Print Assumptions C09_queue_example.
+Print Assumptions C09_registry_forgets_unregistered_service_refuted.
 Print Assumptions C09_unregister_run.
